@@ -11,6 +11,24 @@ CLAIMED = {
  "C13": dict(sec="8/C13", tech="Coq proof (case analysis of every operation with trading off) + differential execution with monitor and reference engine",
     text="Theorems: with the flag off no operation appends to the trade log or moves the traded-volume counter; a market order is Rejected and both sides are unchanged; a limit order rests with its whole volume; toggling changes only the flag (observations equal). Behaviour after re-enabling is compared with the reference engine on every explored history.",
     note="Trusted: as C04. Axioms: none."),
+ "C03": dict(sec="8/C03", tech="Coq proof (ledger invariant by induction over the matching loop and over histories) + differential execution with a ledger-audit monitor",
+    text="Theorems over the model: for every operation the new log is the old log plus a suffix stamped with the book time, the counter moves by exactly the logged volume (or is reset), operations that cannot trade add nothing; each fill record carries min volume, the passive order's price and side and both ids and both orders lose exactly that volume; over any history the log only grows at its end. Per-order conservation and the admit-price clause are decided by the monitor c03_ok on implementation traces (their model-level proof needs the refinement invariant: partial, named).",
+    note="Trusted: as C04. Axioms: none."),
+ "C08": dict(sec="8/C08", tech="Coq proof (step = shuffle + replay, shuffle is a permutation) + exact differential execution (the model computes the schedule from the seed) + search over all schedules when they differ",
+    text="Theorems: one environment step processes a permutation of the queue (each instruction exactly once, nothing else), the i-th at start+i on every book, then jumps the clock to start+step_size, empties the queue and refreshes the cached data, the recorded series and the per-step traded volume; the market afterwards is the plain replay (process_all) of that list. Tied to Env<L>, MarketEnv<A,L> by exact comparison of every observable after every operation; if a step's books differ, all schedules of the batch (<= 7 instructions) are replayed to decide whether any explains them.",
+    note="Trusted: as C04 plus the exact model of Xoroshiro128** / rand 0.8.5 shuffle (Model/Rng.v, validated by the raw-draw comparison in every observation). Axioms: none."),
+ "C10": dict(sec="8/C10", tech="Coq proof (state equalities for submissions) + differential execution with model-free monitor",
+    text="Theorems: a submission changes only the addressed book's order list (one New entry) and the queue; cancel/modify submissions change only the queue; every getter but the order list is blind to the order list; the cached level-2 data equals the live books' at the end of each step and is blind to submissions and toggles. Monitor c10_ok compares full observations before/after every submission on implementation traces.",
+    note="Trusted: as C08. Axioms: none."),
+ "C11": dict(sec="8/C11", tech="Coq proof (what a step records; series lengths) + differential execution with model-free monitor over asymmetric books",
+    text="Theorems: a step appends to every series exactly one entry, namely the end-of-step level-2 record of that asset (bid fields from bid getters, ask from ask), and the book's traded-volume counter; nothing else touches the series. Monitor c11_ok checks lengths, prefixes, equality of the last record with the live book and of the per-step volume with the logged trades, on Env/MarketEnv traces with asymmetric books; all duplicate accessors (get_prices, get_touch_volumes, ...) are cross-checked by the harness.",
+    note="Trusted: as C08. Axioms: none."),
+ "C14": dict(sec="8/C14", tech="Coq proof (locality of per-asset operations) + differential execution against a model that is a list of independent books",
+    text="Theorems: a direct operation or a processed instruction addressed to asset a is the stand-alone book step on the a-th book and leaves every other book equal; set_time is map; ids are per-asset sequence numbers. The model of Market/MarketEnv is literally a list of stand-alone books sharing a clock, so exact agreement of the implementation with it on every explored interleaving is the lock-step comparison the property asks for; all-asset queries are cross-checked against per-asset ones by the harness.",
+    note="Trusted: as C08. Axioms: none."),
+ "C15": dict(sec="8/C15", tech="Coq proof (shuffle is a content-independent permutation function of length and generator state) + exact schedule comparison + the property's statistical test as search/supporting evidence",
+    text="Theorems: the processed order is a permutation of the queue; shuffling commutes with every relabelling of the items, so the permutation depends only on the batch length and the generator state (equal states give equal permutations). Exact equality of the implementation's schedules with the modelled rand 0.8.5 Fisher-Yates over Xoroshiro128** on thousands of seeded steps (batch sizes up to 64). Uniformity of the algorithm's index sampler and the Fisher-Yates bijection are not yet proved (partial, named); the statistical test (Bernstein bound, false alarm < 1e-9) runs on the implementation as supporting evidence and as the search for a failing input.",
+    note="Trusted: as C08. Statistical quality of Xoroshiro128** output is outside any theorem. Axioms: none."),
 }
 REASON_PENDING = "check under construction in this session (model and correspondence exist; theorem file not yet registered)"
 m = {
